@@ -1,0 +1,59 @@
+//go:build verif
+
+package query
+
+import (
+	"fmt"
+	"strings"
+)
+
+// VerifLexQueryString runs the query-string lexer alone (the yyLexer the generated parser
+// calls) until it reports end of input, and returns the token stream: the grammar's token
+// names and each token's text.  lexErr is the message of a lexer error (the lexer raises
+// errors by panicking; parseQuerySyntax recovers them in doParse).
+// Used by the verification harness only (build tag verif).
+func VerifLexQueryString(s string) (kinds []string, texts []string, lexErr string) {
+	defer func() {
+		if r := recover(); r != nil {
+			lexErr = fmt.Sprint(r)
+		}
+	}()
+	l := getQueryStringLex(strings.NewReader(s))
+	defer putQueryStringLex(l)
+	for {
+		var lval yySymType
+		t := l.Lex(&lval)
+		if t == 0 {
+			return
+		}
+		name := ""
+		switch t {
+		case tSTRING:
+			name = "STRING"
+		case tPHRASE:
+			name = "PHRASE"
+		case tPLUS:
+			name = "PLUS"
+		case tMINUS:
+			name = "MINUS"
+		case tCOLON:
+			name = "COLON"
+		case tBOOST:
+			name = "BOOST"
+		case tNUMBER:
+			name = "NUMBER"
+		case tGREATER:
+			name = "GREATER"
+		case tLESS:
+			name = "LESS"
+		case tEQUAL:
+			name = "EQUAL"
+		case tTILDE:
+			name = "TILDE"
+		default:
+			name = fmt.Sprintf("?%d", t)
+		}
+		kinds = append(kinds, name)
+		texts = append(texts, lval.s)
+	}
+}
